@@ -53,10 +53,12 @@ class ApplyDelayLinear(Unit):
         imax, t = z3.Int("imax"), z3.Int("t!c11")
         first_late = z3.Or(z3.And(imax == C, z3.ForAll([t], z3.Implies(z3.And(0 <= t, t < C), recv(t) <= ts_start))),
                            z3.And(0 <= imax, imax < C, recv(imax) > ts_start, z3.ForAll([t], z3.Implies(z3.And(0 <= t, t < imax), recv(t) <= ts_start))))
-        s0 = z3.If(imax - W < 0, 0, z3.If(imax - W > C - W, C - W, imax - W))
+        raw = z3.If(imax - W < 0, imax - W + C, imax - W)
+        s0 = z3.If(raw < 0, 0, z3.If(raw > C - W, C - W, raw))
         ctx.ensure("C11 older entries are evaluated at ts_start minus the arrival spacing of the corresponding messages (one sender period apart for periodic sends): "
                    "query_j = arrival(s + j) + ts_start - arrival(s + W - 1), s = the zoh slice start",
-                   z3.Exists([imax], z3.And(first_late, z3.ForAll([j], z3.Implies(z3.And(0 <= j, j < W), q(j) == knots(s0 + j) + ts_start - knots(s0 + W - 1))))))
+                   z3.substitute(z3.And(first_late, z3.ForAll([j], z3.Implies(z3.And(0 <= j, j < W), q(j) == knots(s0 + j) + ts_start - knots(s0 + W - 1)))), (imax, ex.ghost["argwhere"][-1]))
+                   if ex.ghost.get("argwhere") else z3.BoolVal(False))
         ctx.ensure("result has exactly `window` entries and carries the interpolated payloads", z3.And(ret.f["data"].n == W, z3.ForAll([j], z3.Implies(z3.And(0 <= j, j < W), z3.Select(ret.f["data"].a, j) == I["val"](j)))))
 
 
